@@ -70,7 +70,7 @@ def cases(tier, seed):
             # scripted restarts: (accepted-step ordinal at which a restart is requested, dt factor)
             for _ in range(int(rng.integers(1, 4))):
                 restarts.append([int(rng.integers(0, max(1, min(nsteps, 30)))), float(rng.choice([0.5, 0.5, 1.0, 0.25]))])
-        cs.append(dict(t0=t0, dt=dt, Tend=Tend, procs=procs, nlev=int(rng.choice([1, 1, 2])), maxiter=int(rng.integers(1, 3)), restarts=restarts,
+        cs.append(dict(t0=t0, dt=dt, Tend=Tend, procs=procs, nlev=int(rng.choice([1, 1, 2])), maxiter=int(rng.integers(1, 3)), restarts=restarts, swv=int(rng.integers(0, 6)),
                        jac=bool(rng.random() < 0.5), nexp=nsteps, _cost=nsteps + 5))
     return cs
 
@@ -106,12 +106,15 @@ def run_case(case):
 
     r = Result(case)
     t0, dt, Tend, procs, nlev = case['t0'], case['dt'], case['Tend'], case['procs'], case['nlev']
-    r.key = f'{t0!r}/{dt!r}/{Tend!r}/{procs}/{nlev}/{case["restarts"]}'
+    r.key = f'{t0!r}/{dt!r}/{Tend!r}/{procs}/{nlev}/{case["restarts"]}/{case.get("swv", 0)}'
+    # end point = last node (default) or the collocation update (sweepers whose end value is not their last node)
+    swv = [('RADAU-RIGHT', False), ('RADAU-RIGHT', False), ('GAUSS', False), ('RADAU-LEFT', False), ('RADAU-RIGHT', True), ('LOBATTO', True)][case.get('swv', 0) if not (nlev > 1 and case.get('swv', 0) in (2, 3)) else 4]  # multi-level runs insist on a node at the right end
+    r_swv = swv
     H = make_trace_hook(digests={'pre_step', 'post_step'})
     box = dict(script={})
     desc = dict(
         problem_class=testequation0d, problem_params=dict(lambdas=np.array([-0.3 + 0.2j, -1.0]), u0=1.0), sweeper_class=generic_implicit,
-        sweeper_params=dict(num_nodes=[2, 1][:nlev] if nlev > 1 else 2, quad_type='RADAU-RIGHT', QI='IE'), level_params=dict(dt=dt, restol=-1),
+        sweeper_params=dict(num_nodes=[2, 2][:nlev] if nlev > 1 else 2, quad_type=swv[0], QI='IE', do_coll_update=swv[1]) if swv != ('RADAU-RIGHT', False) else dict(num_nodes=[2, 1][:nlev] if nlev > 1 else 2, quad_type='RADAU-RIGHT', QI='IE'), level_params=dict(dt=dt, restol=-1),
         step_params=dict(maxiter=case['maxiter']), convergence_controllers={RestartInjector: dict(box=box)},
     )
     if nlev > 1:
@@ -158,7 +161,8 @@ def run_case(case):
                 gap = b['time'] - (a['time'] + a['dt'])
                 tol = (procs + 2) * ulp(max(abs(a['time']), abs(b['time']), abs(a['dt'])))
                 r.check(abs(gap) <= tol, 'contiguous', f'{r.key}: second leg on the re-used controller: accepted step at {b["time"]!r} does not start where the previous one ({a["time"]!r} + {a["dt"]!r}) ends: gap {gap:.3e}')
-                r.check(b['dig'][0]['u'][0] == a['dig'][0]['uend'], 'value-chain', f'{r.key}: second leg: step at t={b["time"]!r} does not start from the previous end value')
+                mech2 = 'jacobi-coupling-end-value-recomputed-after-it-was-sent' if ((case['jac'] or nlev > 1) and r_swv != ('RADAU-RIGHT', False) and b.get('slot', 0) >= 2 and procs >= 3) else None
+                r.check(b['dig'][0]['u'][0] == a['dig'][0]['uend'], 'value-chain', f'{r.key}: second leg: step at t={b["time"]!r} does not start from the previous end value', mech=mech2)
             if acc2:
                 r.check(digest(uend2) == acc2[-1]['dig'][0]['uend'], 'returned-is-last-end', f'{r.key}: second leg: returned value is not the last end value')
                 r.check(acc2[-1]['time'] + acc2[-1]['dt'] >= T2 - max(10 * EPS, 4 * ulp(T2)), 'reaches-Tend', f'{r.key}: second leg stopped before its Tend')
@@ -182,7 +186,11 @@ def run_case(case):
         gap = b['time'] - (a['time'] + a['dt'])
         tol = (procs + 2) * ulp(max(abs(a['time']), abs(b['time']), abs(a['dt'])))
         r.check(abs(gap) <= tol, 'contiguous', f'{r.key}: accepted step at {b["time"]!r} does not start where the previous one ({a["time"]!r} + {a["dt"]!r}) ends: gap {gap:.3e} (tol {tol:.1e})')
-        r.check(b['dig'][0]['u'][0] == a['dig'][0]['uend'], 'value-chain', f'{r.key}: step at t={b["time"]!r} does not start from the end value of the step at t={a["time"]!r} (bitwise)')
+        # known mechanism (Jacobi coupling, end value by collocation update): a step's end value is recomputed from the start
+        # value it received in its last check, after the older end value had already been handed to its successor; the first
+        # hand-over of a block is exact because the first step's start value never changes
+        mech = 'jacobi-coupling-end-value-recomputed-after-it-was-sent' if ((case['jac'] or nlev > 1) and r_swv != ('RADAU-RIGHT', False) and b.get('slot', 0) >= 2 and procs >= 3) else None
+        r.check(b['dig'][0]['u'][0] == a['dig'][0]['uend'], 'value-chain', f'{r.key}: step at t={b["time"]!r} (slot {b.get("slot")}) does not start from the end value of the step at t={a["time"]!r} (bitwise; sweeper end point {r_swv})', mech=mech)
     # 5. no step starts at or beyond Tend
     for e in ev_pre:
         r.check(e['time'] < Tend, 'no-start-beyond-Tend', f'{r.key}: a step starts at {e["time"]!r} >= Tend {Tend!r}')
